@@ -256,6 +256,17 @@ class ClassParser(BaseParser):
         self.attr_alias_map = attr_alias_map
         self.case_insensitive_names = case_insensitive_names
 
+    def resolve_forward_refs(self, local_vars=None, ignore_errors: bool = True):
+        # the fields taken from the bases (the field objects are shared) may hold references that
+        # are pending in the parser that declared them: have that parser resolve them first
+        for base in self.obj.__bases__:
+            if not isinstance(base, type(self.obj)) or base is object:
+                continue
+            parser = self.resolve_parser(base)
+            if parser is not None and parser is not self:
+                parser.resolve_forward_refs(local_vars=local_vars, ignore_errors=ignore_errors)
+        return super().resolve_forward_refs(local_vars=local_vars, ignore_errors=ignore_errors)
+
     def make_setter(self, field: ParserField, post_setattr=None):
         def setter(_obj_self: object, value):
             if self.options.immutable or field.immutable:
